@@ -163,6 +163,9 @@ type seqRun struct {
 	infra  []string
 	st     *stats
 	abort  string // non-empty: the sequence stopped early (reason)
+	// admission lineages (adm.go)
+	adm        *admPlan
+	forceExtra uint64 // > 0: blocks between the minimum and the requested proof height of a formation
 }
 
 type stats struct {
@@ -183,10 +186,12 @@ type stats struct {
 	// (capacity - filesize before the call): no-free-space / smaller / equal / larger
 	appendVsFree map[string]int
 	sizeChecks   int // operations whose real contract matched the model's sectors stored / of capacity
+	// admission cases: rpc/gate/(admitted|refused|panic), rpc/admitted-accepted-by-consensus, ...
+	adm map[string]int
 }
 
 func newStats() *stats {
-	return &stats{ops: map[string]int{}, classes: map[string]int{}, branches: map[string]int{}, boundsSeen: map[string]int{}, appendVsFree: map[string]int{}}
+	return &stats{ops: map[string]int{}, classes: map[string]int{}, branches: map[string]int{}, boundsSeen: map[string]int{}, appendVsFree: map[string]int{}, adm: map[string]int{}}
 }
 
 func (s *stats) merge(o *stats) {
@@ -206,6 +211,9 @@ func (s *stats) merge(o *stats) {
 		s.appendVsFree[k] += v
 	}
 	s.sizeChecks += o.sizeChecks
+	for k, v := range o.adm {
+		s.adm[k] += v
+	}
 	s.okRev += o.okRev
 	s.errRev += o.errRev
 	s.accepted += o.accepted
@@ -238,10 +246,15 @@ func pickScale(r *rand.Rand) uint64 {
 }
 
 // runSequence executes one skeleton on the real constructors and the real consensus code.
-func runSequence(idx int, sk []skOp, seed int64) *seqRun {
+func newSeqRun(idx int, sk []skOp, seed int64) *seqRun {
 	s := &seqRun{idx: idx, sk: sk, r: rand.New(rand.NewSource(seed*1000003 + int64(idx)*7919 + 17)), st: newStats()}
 	s.scale = pickScale(s.r)
 	s.events = append(s.events, ev{"ev": "reset", "seq": idx})
+	return s
+}
+
+func runSequence(idx int, sk []skOp, seed int64) *seqRun {
+	s := newSeqRun(idx, sk, seed)
 	ch, err := newChain()
 	if err != nil {
 		s.infraf("chain: %v", err)
@@ -321,6 +334,9 @@ func (s *seqRun) segStart(i int) {
 	extra := uint64(16 + r.Intn(20))
 	if r.Intn(4) == 0 {
 		extra = uint64(16 + r.Intn(60000))
+	}
+	if s.forceExtra > 0 {
+		extra = s.forceExtra
 	}
 	switch op.K {
 	case "new":
